@@ -40,7 +40,16 @@ META = {
              "per sequence of forward / adjoint / get_matrix / T.get_matrix, every returned and every earlier returned array and the user's inputs "
              "compared after every operation.  Part LAY: the matrix of a matrix-backed model as int / float32 / column-major / strided / read-only "
              "array (sparse: int / float32 data) and the vectors as int / float32 / strided / read-only, whole forward / adjoint / get_matrix / T "
-             "comparison against the numbers of the same configuration."),
+             "comparison against the numbers of the same configuration.  "
+             "CONSTRUCTION (part CON, ModelGeomConstruct.tla, EXTENDS ModelGeom): constructing a model is a step of its own - state (configuration, st, out), "
+             "action Construct, invariant WellFormedAccepted: a dense / sparse matrix with FunDim(range) x FunDim(domain) entries on vector function values, or a "
+             "function pair, is ACCEPTED whatever the parameter dimensions of the geometries are (par_dim # fun_dim in the domain and / or the range: "
+             "StepExpansion with fewer steps than nodes, truncated KL expansion, CustomKL; also LinearModel(matrix) with inferred geometries and Abel1D with "
+             "every field type, mapped or not); deviation ShapeCheckedAgainstParDim must violate.  Replay: every configuration is handed to the real "
+             "constructor; a refusal of a well-formed one is the violation construct/<key>/construction_refused, the constructed model must have the "
+             "parameter dimensions of its geometries and (where no `lin` case replays it in full) forward on the basis = H+ F G and get_matrix() = those "
+             "columns.  Every constructor call of the other parts (lin, SEQ, SEQ2, SEQE, FUN, LAY, Abel1D) reports a refusal as a violation "
+             "(<part>/construct/.../construction_refused), never as a machinery failure."),
     "note": ("Bounded sizes (function dimensions 4 and 6, images 2x2/2x3, test problems dim 4-8). KLExpansion is realised numerically "
              "(maps read off the original geometry object). Refusals (fun2par not implemented) are observations. Legacy "
              "Deconvolution1D has no documented operator: only the identities are checked. Complex-valued matrices are out of scope (the library "
@@ -62,6 +71,24 @@ DEVIATIONS = [("C07", "AdjointViaFun2par", "Adjoint"), ("C07", "MatrixIsStored",
 
 BC1 = {"periodic": "periodic", "zero": "zero", "reflect": "Reflect", "mirror": "Mirror", "nearest": "Nearest"}
 BC2 = {"periodic": "periodic", "zero": "zero", "reflect": "Neumann", "mirror": "Mirror", "nearest": "Nearest"}
+
+
+def _refusal(prefix):
+    """A constructor of the library refusing a configuration the specification calls well-formed (ModelGeomConstruct.tla, invariant
+    WellFormedAccepted) is a VIOLATION <prefix>/<key>/construction_refused, never a machinery failure."""
+    def deco(f):
+        import functools
+
+        @functools.wraps(f)
+        def g(ctx, case, *a, **k):
+            from cuqiverif.modelgeom_real import ConstructionRefused, report_refusal
+            try:
+                return f(ctx, case, *a, **k)
+            except ConstructionRefused as r:
+                report_refusal(ctx, case, prefix, r)
+                return None
+        return g
+    return deco
 
 
 def _quiet():
@@ -265,6 +292,7 @@ def _lin_expectations(case, dom, rng):
             "matrix_backed": mb}
 
 
+@_refusal("construct")
 def check_lin_case(ctx, case):
     from cuqiverif.modelgeom_real import build_geometry, build_linear_model, rmat, gkey
     Gd, Gpd, Hr, Hpr = (rmat(case[k]) if len(case[k]) else None for k in ("Gd", "Gpd", "Hr", "Hpr"))
@@ -353,10 +381,14 @@ class _SeqWorld:
         dom, rng = self.geom("D", d), self.geom("R", r)
         F = self.exp(d, r)["F"]
         self.shape["dom"], self.shape["rng"] = dom.fun_shape, rng.fun_shape
+        from cuqiverif.modelgeom_real import construct, mkey
+        key = mkey(self.mk, dom, rng)
         if self.mk == "dense":
-            return cuqi.model.LinearModel(F.copy(), range_geometry=rng.obj, domain_geometry=dom.obj)
+            M = F.copy()
+            return construct(key, lambda: cuqi.model.LinearModel(M, range_geometry=rng.obj, domain_geometry=dom.obj))
         if self.mk == "sparse":
-            return cuqi.model.LinearModel(sp.csc_matrix(F), range_geometry=rng.obj, domain_geometry=dom.obj)
+            M = sp.csc_matrix(F)
+            return construct(key, lambda: cuqi.model.LinearModel(M, range_geometry=rng.obj, domain_geometry=dom.obj))
         shape = self.shape      # the user's function pair works on function values of whatever shape the geometries now have
 
         def fwd(X):
@@ -365,7 +397,7 @@ class _SeqWorld:
         def adj(Y):
             return (F.T @ np.asarray(Y).ravel()).reshape(shape["dom"])
 
-        return cuqi.model.LinearModel(fwd, adj, range_geometry=rng.obj, domain_geometry=dom.obj)
+        return construct(key, lambda: cuqi.model.LinearModel(fwd, adj, range_geometry=rng.obj, domain_geometry=dom.obj))
 
 
 class _SeqChecks:
@@ -457,6 +489,7 @@ class _SeqChecks:
                 Tf, Gm)
 
 
+@_refusal("seq/construct")
 def check_seq_case(ctx, case):
     """Replay one behaviour of the SEQ state machine into one real LinearModel; after EVERY action the object's forward /
     adjoint (and what the action itself returns) must be the specification's values for the CURRENT geometries.
@@ -551,6 +584,7 @@ def seq2_key(beh):
         ("C" + beh["ck"]) if st["a"] == "C" else "%s%d%s" % (st["a"], st["o"], st["g"] if st["g"] else "") for st in beh["steps"])
 
 
+@_refusal("seq2/construct")
 def check_seq2_case(ctx, case):
     """Replay one behaviour of the SEQ2 state machine: ONE real LinearModel, at the action Copy a second object derived from it
     (model(distribution) / copy.copy(model)), every other action on the object the step names.  After EVERY action BOTH objects
@@ -721,7 +755,14 @@ def run_seq(ctx, lin):
             raise MachineryError("SEQ replay never executed action %s" % a)
     if not ctx.observations.get("seq_assignments_of_a_geometry_the_library_calls_equal_to_the_old_one") \
             and not ctx.observations.get("seq_assignment_refused"):
-        raise MachineryError("SEQ replay has no assignment of a geometry that compares equal to the replaced one")
+        # such assignments exist only while the library's == calls two DIFFERENT geometries of the pool equal (a default geometry == every
+        # Continuous1D subclass on its grid, e.g. a StepExpansion: finding C12-F2).  Once that is repaired (proposed_fixes/C12-default-geometry-eq.diff)
+        # no two pool geometries compare equal and the guard has nothing to ask for: recorded, not a machinery failure.
+        import cuqi
+        lax = bool(cuqi.model.Model(lambda x: x, 4, 4).domain_geometry == cuqi.geometry.StepExpansion(np.arange(4.), n_steps=2))
+        if lax:
+            raise MachineryError("SEQ replay has no assignment of a geometry that compares equal to the replaced one")
+        ctx.observe("seq_no_two_pool_geometries_compare_equal", True)
     ctx.observe("seq_behaviours", {"emitted": total, "replayed": len(behs), "depth": inits[0]["depth"]})
     ctx.sample({"case": {"kind": "seq", "key": seq_key(behs[len(behs) // 2]), "steps": behs[len(behs) // 2]["steps"]}})
     return len(behs)
@@ -1027,13 +1068,15 @@ def check_named(ctx, cfg):
         if cfg["mapped"]:
             kw["KL_map"] = lambda f: 2 * f
             kw["KL_imap"] = lambda f: f / 2
+        ctx.case("tp/" + key, facet="abel1d")
         try:
             with _quiet():
                 tp = cuqi.testproblem.Abel1D(dim=dim, field_type=cfg["field"], **kw)
         except Exception as e:  # noqa: BLE001
-            ctx.observations.setdefault("construct_error", {})[key] = repr(e)[:120]
+            # the shipped problem under its own field types: well-formed by the specification (ModelGeomConstruct.tla, mk = "abel")
+            ctx.mismatch("tp/%s/construction_refused" % key, cfg, "the library refused to construct the shipped Abel1D problem with one of its own field "
+                         "types (its matrix acts on the function values of the field; invariant WellFormedAccepted)", "accepted", repr(e))
             return
-        ctx.case("tp/" + key, facet="abel1d")
         model = tp.model
         x = rs.randint(-3, 4, size=model.domain_dim).astype(float)
         y = rs.randint(-3, 4, size=model.range_dim).astype(float)
@@ -1095,6 +1138,8 @@ def run(ctx):
     from cuqiverif import c07_fun
     started = start_tlc(ctx)
     started_fun = c07_fun.start_tlc(ctx)         # part FUN / LAY (ModelGeomFun.tla), also in the background
+    from cuqiverif import c07_construct
+    started_con = c07_construct.start_tlc(ctx)   # part CON (ModelGeomConstruct.tla): construction as a step of its own
     try:
         for c in lin:
             check_lin_case(ctx, c)
@@ -1103,13 +1148,20 @@ def run(ctx):
     except BaseException:
         wait_tlc(started)
         c07_fun.wait_tlc(started_fun)
+        c07_construct.wait_tlc(started_con)
         raise
     try:
         nseq += run_edit(ctx, lin, started)
     except BaseException:
         c07_fun.wait_tlc(started_fun)
+        c07_construct.wait_tlc(started_con)
         raise
-    nseq += c07_fun.run_fun(ctx, started_fun, lin)
+    try:
+        nseq += c07_fun.run_fun(ctx, started_fun, lin)
+    except BaseException:
+        c07_construct.wait_tlc(started_con)
+        raise
+    nseq += c07_construct.run_construct(ctx, started_con, lin)
     for c in conv:
         (check_conv1 if c["kind"] == "conv1" else check_conv2)(ctx, c)
     named = named_problems(tier)
@@ -1155,6 +1207,9 @@ def replay(ctx, case):
     if kind in ("fun", "lay"):
         from cuqiverif import c07_fun
         return c07_fun.replay(ctx, case)
+    if kind == "con":
+        from cuqiverif import c07_construct
+        return c07_construct.replay(ctx, case)
     if kind == "conv1":
         return check_conv1(ctx, case)
     if kind == "conv2":
